@@ -320,7 +320,7 @@ def run_verus(woven, extra, timeout=1800):
     return cmd, out, r.stdout, r.stderr, time.time() - t0
 
 
-def witness_search(prop, repo, rundir, seed, timeout=600, quick=False):
+def witness_search(prop, repo, rundir, seed, timeout=1800, quick=False):
     """bounded differential check of the real code against executable restatements of the property
     (tools/replay).  Returns dict(cases, failures=[...], error)"""
     crate = os.path.join(rundir, "replay-crate")
